@@ -148,18 +148,41 @@ package main
 // Everything the command sets up afterwards (resolver, TLS, prometheus, the Attacker's options) is
 // over-approximated (pragma unknowncalls havoc): the guard must hold whatever that code does.
 //@ func attack
-//@   property C19 C02
+//@   property C19 C02 C04 C14 C18
 //@   pragma unknowncalls havoc
 //@   pragma obligations contract
 //@   pragma frame off
+//@   keeps *opts
 //@   returns (err)
 //@   requires [non-nil] opts != nil
 //@   ghost attacked bool = false
+//@   ghost bodyRead bool = false
 //@   at call Attack: ghost attacked = true
+//@   at call ReadAll: ghost bodyRead = true
 //@   forbid [only-the-signal-pump-stops-the-attack] call Stop
+//@   before call NewJSONTargeter: assert [default-body-and-headers-forwarded] (opts.bodyf != "" ==> bodyRead) && arg1 == body && arg2 == opts.headers.Header
+//@   before call NewHTTPTargeter: assert [default-body-and-headers-forwarded] (opts.bodyf != "" ==> bodyRead) && arg1 == body && arg2 == opts.headers.Header
+//@   before call Redirects: assert [flag-forwarded-unchanged] arg0 == opts.redirects
+//@   before call Timeout: assert [flag-forwarded-unchanged] arg0 == opts.timeout
+//@   before call Workers: assert [flag-forwarded-unchanged] arg0 == opts.workers
+//@   before call MaxWorkers: assert [flag-forwarded-unchanged] arg0 == opts.maxWorkers
+//@   before call KeepAlive: assert [flag-forwarded-unchanged] arg0 == opts.keepalive
+//@   before call Connections: assert [flag-forwarded-unchanged] arg0 == opts.connections
+//@   before call MaxConnections: assert [flag-forwarded-unchanged] arg0 == opts.maxConnections
+//@   before call HTTP2: assert [flag-forwarded-unchanged] arg0 == opts.http2
+//@   before call H2C: assert [flag-forwarded-unchanged] arg0 == opts.h2c
+//@   before call MaxBody: assert [flag-forwarded-unchanged] arg0 == opts.maxBody
+//@   before call UnixSocket: assert [flag-forwarded-unchanged] arg0 == opts.unixSocket
+//@   before call ChunkedBody: assert [flag-forwarded-unchanged] arg0 == opts.chunked
+//@   before call DNSCaching: assert [flag-forwarded-unchanged] arg0 == opts.dnsTTL
+//@   before call ConnectTo: assert [flag-forwarded-unchanged] arg0 == opts.connectTo
+//@   before call SessionTickets: assert [flag-forwarded-unchanged] arg0 == opts.sessionTickets
+//@   before call ProxyHeader: assert [flag-forwarded-unchanged] arg0 == opts.proxyHeaders.Header
+//@   before call Attack: assert [rate-duration-and-name-forwarded-unchanged] arg2 == boxof(opts.rate) && arg3 == opts.duration && arg4 == opts.name
 //@   ensures [unlimited-rate-demands-max-workers] old(opts.maxWorkers) == 18446744073709551615 && old(opts.rate.Freq) == 0 ==> err != nil && !attacked
 //@   loop 1
-//@     invariant -1 <= rangeindex && rangeindex < 2 && opts == old(opts) && !attacked && files != nil
+//@     invariant -1 <= rangeindex && rangeindex < 2 && opts == old(opts) && !attacked && !bodyRead && files != nil
+//@     invariant rangeindex >= 1 && opts.bodyf != "" ==> has(files, opts.bodyf)
 
 // processAttack: every result received from the attack is observed (if metrics are on) and written
 // exactly once, in the order received, until the channel is closed, a write fails or a second signal.
